@@ -350,7 +350,32 @@ def call_clause(ex, cm, fname, available, partial=False):
         args.append(available[n])
     saved = ex.contracts.current
     try:
-        return ex.call_func(fv, args, {}, force_inline=True)
+        if getattr(ex.run, 'in_merge', False):
+            return ex.call_func(fv, args, {}, force_inline=True)
+        # a clause is a pure boolean function: all its paths are merged into one formula (no forking of the
+        # verified function's path); a path on which the clause itself raises makes it false
+        from . import loops
+        res = loops.merge_eval(ex, lambda: ex.call_func(fv, args, {}, force_inline=True), allow_events=True)
+        rets = [(pc, v) for pc, tag, v in res if tag == 'ret']
+        raises = [pc for pc, tag, v in res if tag == 'raise']
+        if not rets:
+            return False
+        term = None
+        for pc, v in reversed(rets):
+            t = v.t if isinstance(v, Sym) else z3.BoolVal(bool(v))
+            if isinstance(v, Sym) and v.kind != K.Bool:
+                raise SystemExit(f'CHECKER-FAULT: clause {cm.name}.{fname} returned non-boolean {v!r}')
+            cond = z3.And(*pc) if pc else z3.BoolVal(True)
+            term = t if term is None else z3.If(cond, t, term)
+        if raises:
+            rc = z3.Or(*[z3.And(*pc) if pc else z3.BoolVal(True) for pc in raises])
+            term = z3.And(z3.Not(rc), term)
+        term = z3.simplify(term)
+        if z3.is_true(term):
+            return True
+        if z3.is_false(term):
+            return False
+        return Sym(K.Bool, term)
     finally:
         ex.contracts.current = saved
 
